@@ -1019,7 +1019,20 @@ func buildIntrinsics() map[string]intrinsic {
 	})
 
 	// ---- math/rand: arbitrary values ----
+	reg(vfn("MapOrders"), func(ex *Exec, fr *frame, fn *ssa.Function, args []Value) Value {
+		ex.mapOrders = args[0].(*Term).IsTrue()
+		return nil
+	})
+	reg(vfn("RandBudget"), func(ex *Exec, fr *frame, fn *ssa.Function, args []Value) Value {
+		ex.randBudget = int(ex.concretize(args[0].(*Term), "RandBudget"))
+		return nil
+	})
 	reg("math/rand.Float32", func(ex *Exec, fr *frame, fn *ssa.Function, args []Value) Value {
+		if ex.randBudget <= 0 {
+			// deterministic tail: 0.99 (no further skip-list level etc.)
+			return ex.tc.BV(32, uint64(math.Float32bits(0.99)))
+		}
+		ex.randBudget--
 		v := ex.fresh("randf32", 32)
 		ex.recordInput(v.name, "rand", 0, v)
 		tc := ex.tc
@@ -1031,6 +1044,10 @@ func buildIntrinsics() map[string]intrinsic {
 	})
 	randInt := func(w int, bounded bool) intrinsic {
 		return func(ex *Exec, fr *frame, fn *ssa.Function, args []Value) Value {
+			if ex.randBudget <= 0 {
+				return ex.tc.BV(w, 0)
+			}
+			ex.randBudget--
 			v := ex.fresh(fmt.Sprintf("rand%d", w), Sort(w))
 			ex.recordInput(v.name, "rand", 0, v)
 			ex.addPC(ex.tc.Cmp(OSLE, ex.tc.BV(w, 0), v))
